@@ -125,6 +125,13 @@ def chardata (kind : String) (content : Str) (ops : List Str) : String :=
           s!"unsupported data={encode s},len={s.length}" :: go s os
         else
           let (s', out) := CharData.step s op
+          -- an edit is refused when its OUTCOME is not data the node can hold (`Dom.validData`, the productions the library
+          -- validates with; INDEX_SIZE_ERR from the offset comes first): the node then holds what it held
+          let mutating := match op with | .app _ | .set _ | .ins _ _ | .del _ _ | .rep _ _ _ => true | _ => false
+          let holds : Bool := if kind == "text" then Dom.validData .text s' else if kind == "comment" then Dom.validData .comment s'
+            else if kind == "cdata" then Dom.validData .cdata s' else true
+          let refused := mutating && !holds && (match out with | .indexSize => false | _ => true)
+          if refused then s!"err:invalid data={encode s},len={s.length}" :: go s os else
           let r := match out with
             | .okNat n => s!"ok={n}"
             | .okStr t => s!"ok={encode t}"
